@@ -102,6 +102,10 @@ def script_operator_pairs(kind, rng, nv=4):
         # true function (for ZBDDs the top of the tautology chain, which add_vars rebuilds) are issued,
         # their results dropped, a variable is added without a collection in between, and the very
         # same operations are issued again
+        # (every earlier result is dropped first: one of them being the constant true function would keep the top of
+        # the ZBDD tautology chain alive across the add_vars below)
+        for j in range(100, k):
+            ops.append(f"DROP h{j}")
         first = k
         round1 = []          # (op, operand slots): operands stay alive, results may be dropped
         drop = []
@@ -115,23 +119,30 @@ def script_operator_pairs(kind, rng, nv=4):
             o = rng.choice(allops)
             ops.append(f"{o} h{k} h{a} h{b}"); round1.append((o, [a, b])); k += 1
             ops.append(f"NAND h{k} h{nota} h{a}"); round1.append(("NAND", [nota, a])); drop.append(k); k += 1  # = true
-        # restrict with the literal cube given as a kept HANDLE (for ZBDDs the cube denotes another
-        # partial assignment once a variable has been added: the new variable is a negative literal)
-        for a in rng.sample(range(pool), 3):
-            v1, v2 = rng.sample(range(nv), 2)
-            c1 = k
-            ops.append(f"VAR h{k} {v1}"); k += 1
-            ops.append(f"RESTRICTH h{k} h{a} h{c1}"); round1.append(("RESTRICTH", [a, c1])); k += 1
-            lit = k
-            ops.append(f"{rng.choice(['VAR', 'NVAR'])} h{k} {v2}"); k += 1
-            c2 = k
-            ops.append(f"AND h{k} h{c1} h{lit}"); k += 1
-            ops.append(f"RESTRICTH h{k} h{a} h{c2}"); round1.append(("RESTRICTH", [a, c2])); k += 1
         ops.append("SNAP")
         for d in drop:
             ops.append(f"DROP h{d}")
         ops.append("VARS 1")
         for o, args in round1:
+            ops.append(f"{o} h{k} " + " ".join(f"h{x}" for x in args)); k += 1
+        ops.append("SNAP")
+        # second round (after the first one: its kept results may be the constant true function and would keep the top
+        # of the ZBDD tautology chain alive): restrict with the literal cube given as a kept HANDLE (for ZBDDs the cube
+        # denotes another partial assignment once a variable has been added: the new variable is a negative literal)
+        round2 = []
+        for a in rng.sample(range(pool), 3):
+            v1, v2 = rng.sample(range(nv), 2)
+            c1 = k
+            ops.append(f"VAR h{k} {v1}"); k += 1
+            ops.append(f"RESTRICTH h{k} h{a} h{c1}"); round2.append(("RESTRICTH", [a, c1])); k += 1
+            lit = k
+            ops.append(f"{rng.choice(['VAR', 'NVAR'])} h{k} {v2}"); k += 1
+            c2 = k
+            ops.append(f"AND h{k} h{c1} h{lit}"); k += 1
+            ops.append(f"RESTRICTH h{k} h{a} h{c2}"); round2.append(("RESTRICTH", [a, c2])); k += 1
+        ops.append("SNAP")
+        ops.append("VARS 1")
+        for o, args in round2:
             ops.append(f"{o} h{k} " + " ".join(f"h{x}" for x in args)); k += 1
         ops.append("SNAP")
         for (o1, o2) in pairs[:12]:
@@ -230,22 +241,21 @@ def gen_scripts(ctx):
     return scripts
 
 
-def run(ctx):
-    vf.proof_gate(ctx, ALLOWED_AXIOMS)
-    binp, drv = build(ctx)
-    scripts = gen_scripts(ctx)
+def run_scripts(ctx, binp, drv, scripts, caches, prefix, config):
+    """runs every script under the given cache capacities + the cache-free reference on one build of the harness and
+    reports scripts whose observables depend on the capacity; returns (ok, bad, badmap)"""
     cases = []
     for i, (kind, each, ops) in enumerate(scripts):
-        for c in CACHES:
-            cases.append((ddgen.header(f"s{i}c{c}", kind, cap=1 << 15, cache=c, snap_each=each), ops))
+        for c in caches:
+            cases.append((ddgen.header(f"{prefix}{i}c{c}", kind, cap=1 << 15, cache=c, snap_each=each), ops))
         # cache-free reference: a collection (= apply cache cleared) before every operation
-        cases.append((ddgen.header(f"s{i}cG", kind, cap=1 << 15, cache=16, snap_each=each, extra="gcall=1"), ops))
+        cases.append((ddgen.header(f"{prefix}{i}cG", kind, cap=1 << 15, cache=16, snap_each=each, extra="gcall=1"), ops))
     args = ["--props", "C02,C04,C09,C10,C11,C12,C13"]
-    ok, bad, digests = vf.lockstep_sharded(ctx, binp, drv, cases, drv_args=args)
+    ok, bad, digests = vf.lockstep_sharded(ctx, binp, drv, cases, drv_args=args, tag="-" + prefix)
     badmap = {cid: msg for cid, msg in bad}
     nviol = 0
     for i, (kind, each, ops) in enumerate(scripts):
-        ids = [f"s{i}c{c}" for c in CACHES] + [f"s{i}cG"]
+        ids = [f"{prefix}{i}c{c}" for c in caches] + [f"{prefix}{i}cG"]
         ds = {cid: digests.get(cid) for cid in ids}
         bads = [cid for cid in ids if cid in badmap]
         differ = len(set(ds.values())) > 1
@@ -264,12 +274,32 @@ def run(ctx):
                                              accept=lambda m2, c=cls: ddcommon.msg_class(m2) == c)
                 msg = smsg or msg
             vf.report_violation(
-                ctx, f"prop:cache-dependent:{kind}:" + (";".join(small) if len(small) <= 30 else f"script-{i}"),
+                ctx, f"prop:cache-dependent:{kind}:{config}:" + (";".join(small) if len(small) <= 30 else f"script-{i}"),
                 {"stage": "correspondence", "kind": "prop", "case_header": header, "ops": small, "verdict": msg,
-                 "drv_args": args, "digests": ds, "bad_under": bads,
+                 "drv_args": args, "digests": ds, "bad_under": bads, "config": config,
                  "what": "the same script gives different / partly wrong results depending on the apply-cache capacity",
                  "theorem_or_relation": "C06: cache transparency (coq/Props/C06.v)"},
                 nfif=False)
+    return ok, bad, badmap
+
+
+POINTER_CFG = "cfg-pointer"
+
+
+def run(ctx):
+    vf.proof_gate(ctx, ALLOWED_AXIOMS)
+    binp, drv = build(ctx)
+    scripts = gen_scripts(ctx)
+    CFG = "cfg-default"
+    ok, bad, badmap = run_scripts(ctx, binp, drv, scripts, CACHES, "s", CFG)
+    # the scripted (non-random) part again on the pointer-based manager build (its own node store and its own
+    # implementation of add_vars / gc / node removal; no MTBDD there)
+    pbin = vf.cargo_build(["h_dd"], features=[POINTER_CFG], no_default=True, target_sub=POINTER_CFG)["h_dd"]
+    pscripts = [(k, e, o) for (k, e, o) in scripts if not e and k != "mtbdd"]
+    okp, badp, _ = run_scripts(ctx, pbin, drv, pscripts, [16, 65536], "p", POINTER_CFG)
+    ok += okp
+    bad = list(bad) + list(badp)
+    ctx.stats["pointer_manager_scripts"] = len(pscripts)
     ctx.stats["scripts"] = len(scripts)
     ctx.stats["distinct_nontrivial"] = len({tuple(o) for _, _, o in scripts})
     ctx.stats["wrong_under_every_capacity"] = sum(
@@ -277,10 +307,23 @@ def run(ctx):
     ctx.samples = [{"kind": k, "ops": o[:14] + ["..."]} for k, _, o in scripts[:2] + scripts[-1:]]
     vf.write_evidence(
         ctx, "proof",
-        rule="script = operation list (operator-pair scripts: every ordered pair of the 8 Boolean resp. 6 arithmetic operators issued back to back on the same operands incl. swapped operands, repeated after gc/set_var_order/add_vars; random histories); each script runs under apply-cache capacities 1, 2, 16, 65536 and once with a collection (apply cache cleared) before every operation as the cache-free reference; compared: per-script digest of all result value tables, node counts, counts; kinds bdd, bcdd, zbdd, mtbdd, tdd (tdd operator-pair scripts: every ordered pair of the 8 three-valued connectives and ite on the same operands, ite also with repeated operands, not in between; tdd histories with cofactors, eval, gc, reordering, add_vars; compared: value tables over all 3^n ternary assignments, cofactor tables, eval results, node counts). non-trivial = every script; distinct = distinct op lists",
+        rule="script = operation list (operator-pair scripts: every ordered pair of the 8 Boolean resp. 6 arithmetic operators issued back to back on the same operands incl. swapped operands, repeated after gc/set_var_order/add_vars; random histories); each script runs under apply-cache capacities 1, 2, 16, 65536 and once with a collection (apply cache cleared) before every operation as the cache-free reference; compared: per-script digest of all result value tables, node counts, counts; the scripted (non-random) part runs again on the pointer-based manager build under capacities 16, 65536 and the reference; kinds bdd, bcdd, zbdd, mtbdd, tdd (tdd operator-pair scripts: every ordered pair of the 8 three-valued connectives and ite on the same operands, ite also with repeated operands, not in between; tdd histories with cofactors, eval, gc, reordering, add_vars; compared: value tables over all 3^n ternary assignments, cofactor tables, eval results, node counts). non-trivial = every script; distinct = distinct op lists",
         checker_cmd="make -C coq Props/C06.vo (coqc 8.16.1) + Print Assumptions audit; ./check C06",
         extra_cov={"cases_ok": ok, "cases_bad": len(bad), "capacities": CACHES, "tier": ctx.tier})
 
 
 def replay(ctx, path):
-    ddcommon.replay_dd(ctx, path)
+    import json
+    r = json.load(open(path))
+    if r.get("config") != POINTER_CFG:
+        return ddcommon.replay_dd(ctx, path)
+    binp, drv = build(ctx)
+    pbin = vf.cargo_build(["h_dd"], features=[POINTER_CFG], no_default=True, target_sub=POINTER_CFG)["h_dd"]
+    f = os.path.join(ctx.workdir, "replay.txt")
+    vf.write_cases(f, [(r["case_header"], r["ops"])])
+    ok, bad = vf.lockstep(ctx, pbin, drv, f, tag="-replay", drv_args=r.get("drv_args", []))
+    for cid, msg in bad:
+        print(f"replay: case {cid}: {msg}")
+        vf.report_violation(ctx, "replay:" + ";".join(r["ops"][:30]), r, nfif=False)
+    if not bad:
+        print("replay: no divergence")
